@@ -128,8 +128,24 @@ class Plain:
     pass
 
 
+class AttrAndItem:
+    """has both an attribute and an item of that name: the attribute wins"""
+    k = 'attr-wins'
+    keys = 'attr-keys'
+
+    def __getitem__(self, name):
+        return 'item-loses'
+
+
+class DictSub(dict):
+    pass
+
+
 OBJ = [HasAttr(), HasItem(), {'k': 'dictitem'}, {'z': 1}, Plain(), ItemIndexError(), None, 3]
 KIND_N['obj'] = len(OBJ)
+# objects whose own attributes collide with item names: attribute access comes first
+OBJ2 = [{'keys': 'item', 'a': 1}, {'b': 2}, AttrAndItem(), DictSub({'keys': 'item'}), {'items': 3, 'get': 4, 'keys': 5}]
+KIND_N['obj2'] = len(OBJ2)
 KIND_N['maybe3'] = 3
 KIND_N['cls_s'] = 5
 KIND_N['cls_t'] = 3
@@ -367,6 +383,9 @@ def bind(ints, bools):
             continue
         if kind == 'obj':
             b[name] = pick(OBJ, ints[slot])
+            continue
+        if kind == 'obj2':
+            b[name] = pick(OBJ2, ints[slot])
             continue
         if kind.startswith('iter:'):  # iterable of the given kind with symbolic length 0..3
             n = pick(_R5[:4], ints[slot])
